@@ -1725,6 +1725,10 @@ class Exec:
                         raise Unsupported('symbolic filter in comprehension over concrete sequence')
                 if ok:
                     out.append(self.eval(node.elt, s))
+                    for bk, bv in s.store.items():       # arrays allocated by the element expression stay alive
+                        if bk not in st.store:
+                            st.store[bk] = bv
+                    st.pc = s.pc
             return out
         if g.ifs:
             raise Unsupported('filter in comprehension over symbolic sequence (line %d)' % node.lineno)
